@@ -69,7 +69,9 @@ type Tree struct {
 	Vals       []*Term
 }
 
-func leafTree(st *State, fl flowKind, vals ...*Term) *Tree { return &Tree{St: st, Flow: fl, Vals: vals} }
+func leafTree(st *State, fl flowKind, vals ...*Term) *Tree {
+	return &Tree{St: st, Flow: fl, Vals: vals}
+}
 
 func (t *Tree) mapLeaves(f func(*Tree) *Tree) *Tree {
 	if t.Cond == nil {
@@ -1596,7 +1598,9 @@ func (in *Interp) libcall(fr *frame, name string, f *types.Func, call *ast.CallE
 }
 
 // deleteFunc models slices.DeleteFunc(s, del) as the loop
-//   out := []; for _, e := range s { if !del(e) { out = append(out, e) } }
+//
+//	out := []; for _, e := range s { if !del(e) { out = append(out, e) } }
+//
 // with the closure inlined, so that captured variables it assigns become
 // loop-carried.
 func (in *Interp) deleteFunc(fr *frame, call *ast.CallExpr, args []*Term, st *State) *Tree {
